@@ -10,9 +10,9 @@ ALL = "C01 C02 C03 C04 C05 C06 C07 C08 C09 C10 C11 C12 C13 C14 C15 C16 C17 C18".
 def fold(log):
     cur = None
     for line in open(log, errors="replace"):
-        m = re.match(r"##### (C\d\d)/(\d+)", line)
+        m = re.match(r"##### (C\d\d)/(\d+)(?: \((\w+)\))?", line)
         if m:
-            cur = f"{m.group(1)}_{m.group(2)}"; data = {"signatures": {}, "checks_run": None}
+            cur = m.group(3) or f"{m.group(1)}_{m.group(2)}"; data = {"signatures": {}, "checks_run": None}
             continue
         if cur is None:
             continue
